@@ -50,7 +50,7 @@ static void run_case(Out& out, const std::string& kind, const std::string& paylo
     std::string id = out.add(kind, payload);
     g_out = &out;
     snprintf(g_id, sizeof g_id, "%s", id.c_str());
-    alarm(20);
+    alarm(60);
     // tokens
     std::vector<std::string> tok;
     {
